@@ -1,26 +1,32 @@
 // ===== prelude/agecrypt.rs — TRUSTED BASE: age / sha2 / x25519 / bech32 as used by Slatepack::try_decrypt_payload =====
-// Every value produced by decryption is unconstrained: the sender chooses it.
+// Every value produced by decryption is chosen by the sender (C09); what the model fixes is only that each library call is a
+// FUNCTION of its inputs (A-age: age / sha2 / x25519 / bech32 are deterministic), so that C10 can say which key and which
+// bytes the result depends on.
+pub uninterp spec fn spec_sha512(b: Seq<u8>) -> Seq<u8>;
+pub uninterp spec fn spec_ed_secret_bytes(k: DalekSecretKey) -> Seq<u8>;
+// the plaintext an age file yields to the identity made from these x25519 secret bytes (None: not decryptable by it)
+pub uninterp spec fn spec_age_plain(file: Seq<u8>, x_secret: Seq<u8>) -> Option<Seq<u8>>;
 pub struct Sha512 { pub st: Ghost<Seq<u8>> }
 pub struct Sha512Out { pub b: [u8; 64] }
 impl Sha512 {
     #[verifier::external_body]
-    pub fn new() -> (r: Sha512) { unimplemented!() }
+    pub fn new() -> (r: Sha512) ensures r.st@ == Seq::<u8>::empty() { unimplemented!() }
     #[verifier::external_body]
-    pub fn update(&mut self, b: [u8; 32]) { unimplemented!() }
+    pub fn update(&mut self, b: [u8; 32]) ensures final(self).st@ == old(self).st@ + b@ { unimplemented!() }
     #[verifier::external_body]
-    pub fn finalize(self) -> (r: Sha512Out) { unimplemented!() }
+    pub fn finalize(self) -> (r: Sha512Out) ensures r.b@ == spec_sha512(self.st@) { unimplemented!() }
 }
 impl VfSliceable<u8> for Sha512Out { open spec fn sl_view(&self) -> Seq<u8> { self.b@ } }
 pub struct StaticSecret { pub k: [u8; 32] }
-pub struct Base32Data { pub d: u8 }
+pub struct Base32Data { pub d: Ghost<Seq<u8>> }
 pub struct XBytes { pub b: [u8; 32] }
 impl StaticSecret {
     #[verifier::external_body]
-    pub fn from(b: [u8; 32]) -> (r: StaticSecret) { unimplemented!() }
+    pub fn from(b: [u8; 32]) -> (r: StaticSecret) ensures r.k == b { unimplemented!() }
     #[verifier::external_body]
-    pub fn to_bytes(&self) -> (r: XBytes) { unimplemented!() }
+    pub fn to_bytes(&self) -> (r: XBytes) ensures r.b == self.k { unimplemented!() }
 }
-impl XBytes { #[verifier::external_body] pub fn to_base32(&self) -> (r: Base32Data) { unimplemented!() } }
+impl XBytes { #[verifier::external_body] pub fn to_base32(&self) -> (r: Base32Data) ensures r.d@ == self.b@ { unimplemented!() } }
 pub struct Bech32Error { pub c: u8 }
 pub struct AgeDecryptError { pub c: u8 }
 pub struct AgeParseError { pub c: u8 }
@@ -29,45 +35,53 @@ impl From<Bech32Error> for Error { #[verifier::external_body] fn from(e: Bech32E
 impl From<AgeDecryptError> for Error { #[verifier::external_body] fn from(e: AgeDecryptError) -> (r: Error) { unimplemented!() } }
 impl From<AgeParseError> for Error { #[verifier::external_body] fn from(e: AgeParseError) -> (r: Error) { unimplemented!() } }
 impl From<IoError> for Error { #[verifier::external_body] fn from(e: IoError) -> (r: Error) { unimplemented!() } }
-pub struct Bech32String { pub s: u8 }
+pub struct Bech32String { pub s: Ghost<Seq<u8>> }
 pub mod bech32 {
     #[allow(unused_imports)] use super::*;
     #[verifier::external_body]
-    pub fn encode(hrp: &str, data: Base32Data) -> (r: Result<Bech32String, Bech32Error>) { unimplemented!() }
+    pub fn encode(hrp: &str, data: Base32Data) -> (r: Result<Bech32String, Bech32Error>) ensures r matches Ok(s) ==> s.s@ == data.d@, data.d@.len() == 32 ==> r is Ok { unimplemented!() }
 }
-pub struct AgeIdentity { pub k: u8 }
+pub struct AgeIdentity { pub k: Ghost<Seq<u8>> }
 impl Bech32String {
     // `.parse::<age::x25519::Identity>()`
     #[verifier::external_body]
-    pub fn parse(&self) -> (r: Result<AgeIdentity, AgeParseError>) { unimplemented!() }
+    pub fn parse(&self) -> (r: Result<AgeIdentity, AgeParseError>) ensures r matches Ok(i) ==> i.k@ == self.s@, self.s@.len() == 32 ==> r is Ok { unimplemented!() }
 }
-pub struct RecipientsDecryptor { pub d: u8 }
+pub struct RecipientsDecryptor { pub d: Ghost<Seq<u8>> }
 pub struct PassphraseDecryptor { pub d: u8 }
 // age::Decryptor::new parses the age header: the *sender* decides whether it is a recipients or a passphrase file
 pub enum AgeDecryptor { Recipients(RecipientsDecryptor), Passphrase(PassphraseDecryptor) }
-pub struct AgeStreamReader { pub r: u8 }
+pub struct AgeStreamReader { pub r: Ghost<Seq<u8>> }
 pub mod age {
     pub use crate::AgeDecryptor as Decryptor;
     pub mod x25519 { pub use crate::AgeIdentity as Identity; }
 }
 impl AgeDecryptor {
     #[verifier::external_body]
-    pub fn new(input: &[u8]) -> (r: Result<AgeDecryptor, AgeDecryptError>) { unimplemented!() }
+    pub fn new(input: &[u8]) -> (r: Result<AgeDecryptor, AgeDecryptError>)
+        ensures r matches Ok(AgeDecryptor::Recipients(d)) ==> d.d@ == input@,
+            // A-age-total: a file some x25519 identity can open parses as a recipients file
+            (exists|x: Seq<u8>| #[trigger] spec_age_plain(input@, x) is Some) ==> r matches Ok(AgeDecryptor::Recipients(_)) { unimplemented!() }
 }
 impl RecipientsDecryptor {
     // L17: `d.decrypt(std::iter::once(&key as &dyn age::Identity))`
     #[verifier::external_body]
-    pub fn decrypt_with(self, key: &AgeIdentity) -> (r: Result<AgeStreamReader, AgeDecryptError>) { unimplemented!() }
+    pub fn decrypt_with(self, key: &AgeIdentity) -> (r: Result<AgeStreamReader, AgeDecryptError>)
+        ensures r matches Ok(rd) ==> spec_age_plain(self.d@, key.k@) == Some(rd.r@),
+            // A-age: a file that this identity cannot open (not a recipient, or modified) is refused
+            spec_age_plain(self.d@, key.k@) is None ==> r is Err,
+            // A-age-total: ... and opens, completely, for that identity
+            spec_age_plain(self.d@, key.k@) is Some ==> r is Ok { unimplemented!() }
 }
 impl AgeStreamReader {
     // std::io::Read::read_to_end: appends whatever the stream yields
     #[verifier::external_body]
     pub fn read_to_end(&mut self, buf: &mut Vec<u8>) -> (r: Result<usize, IoError>)
-        ensures final(buf)@.len() >= old(buf)@.len() { unimplemented!() }
+        ensures final(buf)@.len() >= old(buf)@.len(), r is Ok ==> final(buf)@ == old(buf)@ + old(self).r@, r is Ok { unimplemented!() }
 }
 // L17: `Cursor::new(len_bytes).read_u32::<BigEndian>()`
 #[verifier::external_body]
-pub fn vf_read_u32_be(b: [u8; 4]) -> (r: Result<u32, IoError>) ensures r is Ok { unimplemented!() }
+pub fn vf_read_u32_be(b: [u8; 4]) -> (r: Result<u32, IoError>) ensures r is Ok, r matches Ok(v) ==> v == spec_de32(b@) { unimplemented!() }
 // Vec::split_off(at): panics if at > len
 #[verifier::external_body]
 pub fn vf_split_off(v: &mut Vec<u8>, at: usize) -> (r: Vec<u8>)
@@ -79,13 +93,16 @@ pub use crate::DalekSecretKey as edSecretKey;
 // ed25519 secret key bytes
 impl DalekSecretKey {
     #[verifier::external_body]
-    pub fn as_bytes(&self) -> (r: &[u8; 32]) { unimplemented!() }
+    pub fn as_bytes(&self) -> (r: &[u8; 32]) ensures r@ == spec_ed_secret_bytes(*self) { unimplemented!() }
 }
 // byte_ser::from_bytes::<SlatepackEncMetadataBin>: serde shim that runs SlatepackEncMetadataBin::read (verified separately)
 // over the bytes; no effect other than the result
+// what SlatepackEncMetadataBin::read decodes from these bytes
+pub uninterp spec fn spec_enc_meta_of(b: Seq<u8>) -> Option<SlatepackEncMetadata>;
 pub mod byte_ser {
     #[allow(unused_imports)] use super::*;
     pub struct ByteSerError { pub c: u8 }
     #[verifier::external_body]
-    pub fn from_bytes_enc_meta(b: &Vec<u8>) -> (r: Result<SlatepackEncMetadataBin, ByteSerError>) { unimplemented!() }
+    pub fn from_bytes_enc_meta(b: &Vec<u8>) -> (r: Result<SlatepackEncMetadataBin, ByteSerError>)
+        ensures r matches Ok(m) ==> spec_enc_meta_of(b@) == Some(m.0), spec_enc_meta_of(b@) is Some ==> r is Ok { unimplemented!() }
 }
